@@ -133,4 +133,38 @@ example :
       evRows (g.runOps [.next true, .next false, .next true]).2 = [[2, 1, 4, 3], [1, 2, 3, 4], [1, 2, 3, 4]] := by
   refine ⟨_, rfl, ?_, ?_, ?_⟩ <;> decide
 
+/-! ### Calls belong to one row -/
+
+/-- `generateNextRow` only replaces the calls when it takes a row from the generator. -/
+theorem generateNextRow_calls (b : Bot) (h : b.ringingOpening = true ∨ b.ringingRounds = true) :
+    (b.generateNextRow).1.calls = b.calls := by
+  unfold Bot.generateNextRow
+  rcases h with h | h
+  · simp [h]
+  · cases ho : b.ringingOpening <;> simp [h]
+
+theorem snrFinish_calls (b2 : Bot) (o4 : List Out) (h : b2.ringingOpening = true ∨ b2.ringingRounds = true) :
+    (Bot.snrFinish b2 o4).1.calls = b2.calls := by
+  unfold Bot.snrFinish
+  split
+  · rfl
+  · have := generateNextRow_calls b2 h
+    revert this
+    generalize b2.generateNextRow = p
+    obtain ⟨b3, o9⟩ := p
+    intro this
+    simp only
+    split <;> exact this
+
+/-- **No stale calls**: a row of rounds (opening rounds, closing rounds, rounds after "Rounds") that
+is not inside the up-down-in / Go countdown carries no calls at all — whatever calls the previous row,
+or the previous touch, carried. -/
+theorem rounds_carry_no_stale_calls (b : Bot) (isFirst : Bool) (c : Ctl) (started : Bool)
+    (hc : ctlStep b.ctl (b.ctlIn isFirst) = .ok c started) (hleft : b.roundsLeft = none)
+    (hr : c.ringingOpening = true ∨ c.ringingRounds = true) :
+    (b.startNextRow isFirst).1.calls = [] := by
+  unfold Bot.startNextRow
+  simp only [hc]
+  rw [snrFinish_calls _ _ (by cases started <;> exact hr)]
+  cases started <;> simp [Bot.withCtl, Bot.resetGen, Bot.snrPrep, hleft]
 end Wheatley.C16
